@@ -170,6 +170,100 @@ def run(res, tier):
     if total < 10:
         raise AnalysisBroken('DEFAULT-OUTSIDE-WINDOW matched only %d sites' % total)
     res.functions_analysed = sum(1 for f in fx.funcs.values() if f.full)
+    # ---- round-1 additions: ring arithmetic and aliasing (decided once, on the Queue<String> instantiation; the code is the same template)
+    inst = INSTS[1][1] if len(INSTS) > 1 else INSTS[0][1]
+    funcs = [f for f in fx.funcs.values() if f.full and f.q.startswith(Q + '::') and (inst + '::') in f.name]
+    res.rule('RING-AWARE', 'a loop that resets slots through the raw storage `_queue[i]` converts the index with InternalizeIndex()/NextIndex()/PrevIndex() (or walks the two segments of GetArrayPointer): '
+                           'a plain physical index running from _headIndex to _tailIndex covers nothing when the ring is wrapped', floor=1)
+    n_ra = 0
+    for f in sorted(funcs, key=lambda f: f.line):
+        for st in default_stores(f):
+            lhs = A.strip_casts(st['ch'][0] if st['k'] == 'BinaryOperator' else st['ch'][1])
+            base, idx = A.strip_casts(lhs['ch'][0]), A.strip_casts(lhs['ch'][1])
+            loop = None
+            for a in st.ancestors():
+                if a['k'] in ('ForStmt', 'WhileStmt', 'DoStmt'):
+                    loop = a
+                    break
+            if loop is None:
+                continue
+            n_ra += 1
+            raw = base['k'] == 'MemberExpr' and base.get('n') == '_queue'
+            ok = True
+            if raw:
+                ok = idx.is_call() and (idx.get('q') or '').split('::')[-1] in ('InternalizeIndex', 'NextIndex', 'PrevIndex')
+            res.ob('RING-AWARE', f.where(st), '%s: reset loop at line %s addresses slots ring-aware' % (f.q.split('::')[-1], st.get('l')), ok, how='store `%s`' % lhs.text(40), function=f.q,
+                   key='RING-AWARE|%s|%s' % (f.q.split('<')[0] + '::' + f.q.split('::')[-1], lhs.text(20)),
+                   message='%s resets slots with `%s` in a loop over a physical index: when the ring is wrapped (_headIndex > _tailIndex) the loop does not cover the live slots, so removed items stay '
+                           'alive in the buffer and are exposed again as "default" items by EnsureSize(n, true)' % (f.q, lhs.text(40)))
+    if n_ra < 1:
+        raise AnalysisBroken('RING-AWARE: no reset loop found')
+    res.rule('INDEX-WRAP', 'every additive update of _headIndex/_tailIndex is reduced modulo _queueSize: `%% _queueSize`, InternalizeIndex/NextIndex/PrevIndex, or `if (idx >= _queueSize) idx -= _queueSize` '
+                           '(with >=: an index equal to _queueSize is already out of range)', floor=1)
+    n_iw = 0
+    for f in sorted(funcs, key=lambda f: f.line):
+        for n in f.walk():
+            if n['k'] not in ('BinaryOperator', 'CompoundAssignOperator') or n.get('op') not in ('=', '+='):
+                continue
+            l = A.strip_casts(n['ch'][0])
+            if not (l['k'] == 'MemberExpr' and l.get('n') in ('_headIndex', '_tailIndex') and A.is_this_member(l)):
+                continue
+            rhs = A.strip_casts(n['ch'][1])
+            additive = n['op'] == '+=' or (rhs['k'] == 'BinaryOperator' and rhs.get('op') == '+')
+            if additive and n['op'] == '+=' and A.strip_casts(n['ch'][1]).get('n') == '_queueSize':
+                continue           # borrow before a subtraction (`if (idx < n) idx += _queueSize; idx -= n;`): not an advance
+            if not additive:
+                # `(a + b) % _queueSize` : wrapped in the same expression
+                if rhs['k'] == 'BinaryOperator' and rhs.get('op') == '%' and any(x['k'] == 'BinaryOperator' and x.get('op') == '+' for x in rhs['ch'][0].walk()):
+                    n_iw += 1
+                    res.ob('INDEX-WRAP', f.where(n), '%s: %s is reduced with %% _queueSize' % (f.q.split('::')[-1], l.get('n')), A.strip_casts(rhs['ch'][1]).get('n') == '_queueSize', function=f.q,
+                           key='INDEX-WRAP|%s|%s' % (f.q.split('<')[0] + '::' + f.q.split('::')[-1], l.get('n')), message='%s reduces %s modulo something other than _queueSize' % (f.q, l.get('n')))
+                continue
+            n_iw += 1
+            # a following  if (idx >= _queueSize) idx -= _queueSize
+            ok = False
+            how = None
+            for blk in f.blocks.values():
+                if blk.cond is None or blk.cond not in f.nodes:
+                    continue
+                cn = f.nodes[blk.cond]
+                if cn['k'] == 'BinaryOperator' and cn.get('op') in ('>', '>=', '<', '<=') and any(x['k'] == 'MemberExpr' and x.get('n') == l.get('n') for x in cn.walk()) \
+                        and any(x['k'] == 'MemberExpr' and x.get('n') == '_queueSize' for x in cn.walk()) and C.can_reach(f, P.pos_of(f, n), set([(blk.b, len(blk.elems) - 1)])):
+                    lhs_is_idx = A.strip_casts(cn['ch'][0]).get('n') == l.get('n')
+                    op = cn['op'] if lhs_is_idx else {'>': '<', '>=': '<=', '<': '>', '<=': '>='}[cn['op']]
+                    how = '%s' % cn.text(40)
+                    ok = op == '>='
+            res.ob('INDEX-WRAP', f.where(n), '%s: additive update of %s is followed by a wrap test with >=' % (f.q.split('::')[-1], l.get('n')), ok, how=how, function=f.q,
+                   key='INDEX-WRAP|%s|%s' % (f.q.split('<')[0] + '::' + f.q.split('::')[-1], l.get('n')),
+                   message='%s adds to %s and wraps it with `%s`: an index equal to _queueSize is left unwrapped (one past the storage); the next RemoveHead()/AddTail() then works on the wrong slot and '
+                           'items are lost' % (f.q, l.get('n'), how or 'no wrap test'))
+    if n_iw < 1:
+        raise AnalysisBroken('INDEX-WRAP: no additive index update found')
+    res.rule('ALIAS-GUARD', 'a Queue method that shifts existing items in place (ReplaceItemAt(i, GetItemAtUnchecked(i+-1)) in a loop) and then stores its by-reference item parameter evaluates '
+                            'IsItemLocatedInThisContainer(item) on every path before the shift (not only when a reallocation is due)', floor=1)
+    n_ag = 0
+    for f in sorted(funcs, key=lambda f: f.line):
+        shifts = []
+        for c in f.walk():
+            if c['k'] == 'CXXMemberCallExpr' and (c.get('q') or '').endswith('::ReplaceItemAt') and any(a['k'] in ('ForStmt', 'WhileStmt') for a in c.ancestors()) \
+                    and any(x.is_call() and (x.get('q') or '').endswith('::GetItemAtUnchecked') for x in c.walk()):
+                shifts.append(c)
+        if not shifts or not f.params:
+            continue
+        # the by-reference *item* parameter: it is handed to ReplaceItemAt/AddTail/AddHead somewhere in the method
+        refp = [p_ for p_ in f.params if f.ptype(p_).rstrip().endswith('&')
+                and any(c.is_call() and (c.get('q') or '').split('::')[-1] in ('ReplaceItemAt', 'AddTail', 'AddHead') and any(x['k'] == 'DeclRefExpr' and x.get('d') == p_['d'] for x in c.walk()) for c in f.walk())]
+        if not refp:
+            continue
+        n_ag += 1
+        chk = [c for c in f.walk() if c.is_call() and (c.get('q') or '').endswith('::IsItemLocatedInThisContainer') and any(x['k'] == 'DeclRefExpr' and x.get('d') == refp[-1]['d'] for x in c.walk())]
+        ok = bool(chk) and all(P.must_precede(f, chk, sft) for sft in shifts)
+        res.ob('ALIAS-GUARD', f.where(), '%s evaluates IsItemLocatedInThisContainer(%s) on every path before shifting items' % (f.q.split('::')[-1], refp[-1].get('n')), ok, function=f.q,
+               key='ALIAS-GUARD|%s' % (f.q.split('<')[0] + '::' + f.q.split('::')[-1]),
+               message='%s can shift items in place without having tested whether `%s` refers to one of them: q.InsertItemAt(j, q[k]) then stores the neighbour of q[k] (the reference names a different '
+                       'element after the shift) and still reports success' % (f.q, refp[-1].get('n')))
+    if n_ag < 1:
+        raise AnalysisBroken('ALIAS-GUARD: no in-place shifting method found')
     res.explanation = ('Static decision of one structural invariant of Queue, per forced instantiation: IsPerItemClearNecessary() is folded to its per-type constant and the CFG is pruned accordingly; for owning item types '
                        'every reachable decrease of _itemCount is followed by a store of the default item into the vacated slot (Clear() resets all slots before FastClear()); for trivial item types the two places '
                        'where EnsureSizeAux raises _itemCount over unassigned slots are preceded by default-store loops. Equivalence with an ideal deque is not decided.')
